@@ -140,6 +140,33 @@ def python_layer_events():
                         except BaseException as e:  # noqa
                             exc, bases, isexc = exc_info(e)
                         out.append(dict(ev="Install", via="User", acode=acode, akeylen=alen, pcode=pcode, pkeylen=plen, exc=exc, bases=bases, isexc=isexc))
+    # key material is opaque whatever its first and last octets are: line breaks, blanks, NULs at either end (keys read from files /
+    # the environment end that way - and digests end in 0x0a once in 256): password, master and localized keys of exactly the digest
+    # length must reach the socket octet for octet
+    ends = [b"\n", b"\r\n", b"\r", b" ", b"\t", b"\x00", b"\x0b", b"\x0c", b"\n\n", b"=", b"\xa0", b"\x85"]
+    for K, alg in ((Md5Key, 1), (Sha1Key, 2)):
+        klen = 16 if alg == 1 else 20
+        for kt in (KeyType.Master, KeyType.Localized, KeyType.Password):
+            ktn = {KeyType.Password: 0, KeyType.Master: 1, KeyType.Localized: 2}[kt]
+            for ei, tail in enumerate(ends):
+                for where in ("tail", "head", "both"):
+                    body = keybytes(klen, 3 + ei)
+                    body = bytes(b if b not in (9, 10, 11, 12, 13, 32, 0) else 0x41 for b in body)
+                    if where == "tail":
+                        key = body[:klen - len(tail)] + tail
+                    elif where == "head":
+                        key = tail + body[len(tail):]
+                    else:
+                        key = tail + body[len(tail):klen - len(tail)] + tail
+                    for P in (None, Aes128Key, DesKey):
+                        ue = dict(ev="UserKeys", aalg=alg, kt=ktn, akey=list(key), pcipher=0 if P is None else (1 if P is DesKey else 2), pkey=list(key[::-1]) if P else [],
+                                  outa=[], outp=[], exc="", bases=[], isexc=True)
+                        try:
+                            u0 = User("u", auth_key=K(key, key_type=kt), priv_key=P(key[::-1], key_type=kt) if P else None)
+                            ue["outa"], ue["outp"] = list(u0.get_auth_key()), list(u0.get_priv_key()) if P else []
+                        except BaseException as e:  # noqa
+                            ue["exc"], ue["bases"], ue["isexc"] = exc_info(e)
+                        out.append(ue)
     # passwords are opaque octet strings, whatever they look like
     from checks import c13
     for pw in c13.SHAPED_PASSWORDS:
